@@ -61,7 +61,9 @@ Theorem c06_impl_block_header : forall a h t,
   first_where_toks (i_gen (c06_impl a h t)) = c06_bound a (has_async (map snd (trait_sigs t))) (t_name t) (t_gen t) /\
   i_trait (c06_impl a h t) = Some ([TId (t_name t)] ++ trait_args (t_gen t)) /\
   (* the impl declares the trait's lifetimes, then the application, then the trait's other parameters without defaults *)
-  p_items (g_params (i_gen (c06_impl a h t))) = trait_impl_params (p_items (g_params (t_gen t))).
+  p_items (g_params (i_gen (c06_impl a h t))) = trait_impl_params (p_items (g_params (t_gen t))) /\
+  (* after the bound on the application, the impl's where clause repeats the trait's *)
+  tl (where_items (i_gen (c06_impl a h t))) = where_items (t_gen t).
 Proof. exact c06_impl_header. Qed.
 Print Assumptions c06_impl_block_header.
 
